@@ -145,10 +145,26 @@ type Verdict struct {
 	Accepted  bool
 	Ambiguous bool // verdict depended on map order; Accepted means "accepted every time"
 	List      gabi.ProofList
+	// Accepted2 is the verdict of verifying the very same decoded objects a second time
+	// (verification caches inside proof objects); Second says whether that was done.
+	Accepted2, Second bool
 }
 
 // verifyWire is the verifier shell: bytes in, decode with gabi's decoder, verify.
-func verifyWire(wire []byte, s Session) (v Verdict) {
+func verifyWire(wire []byte, s Session) (v Verdict) { return verifyWire2(wire, s, false) }
+
+// verifyWireTwice additionally verifies the same decoded objects a second time.
+func verifyWireTwice(wire []byte, s Session) (v Verdict) { return verifyWire2(wire, s, true) }
+
+// checkReverify: a verdict must not depend on whether the proof objects were verified before.
+func checkReverify(r *kernel.Run, prop, fault string, v Verdict) {
+	if v.Second && !v.Ambiguous && v.Accepted2 != v.Accepted {
+		r.Violate(prop+":verdict-changes-on-reverification", map[string]any{"fault": fault, "second": v.Accepted2},
+			"%s: first verification of the decoded proof objects says %v, verifying the same objects again says %v", fault, v.Accepted, v.Accepted2)
+	}
+}
+
+func verifyWire2(wire []byte, s Session, reverify bool) (v Verdict) {
 	if p := guard(func() { v.DecodeErr = json.Unmarshal(wire, &v.List) }); p != "" {
 		v.Panic = "decode: " + p
 		return
@@ -160,6 +176,13 @@ func verifyWire(wire []byte, s Session) (v Verdict) {
 		v.Panic = "verify: " + p
 		v.Accepted = false
 		return
+	}
+	if reverify {
+		v.Second = true
+		if p := guard(func() { v.Accepted2 = v.List.Verify(s.Keys, s.Context, s.Nonce, s.IsSig, s.Labels) }); p != "" {
+			v.Panic = "re-verify: " + p
+			v.Accepted2 = false
+		}
 	}
 	// Map-order hole (DESIGN section 4): when a proof with a non-revocation part has two hidden
 	// responses below 2^580 the verdict of one Verify call depends on Go's map iteration order.
